@@ -341,6 +341,10 @@ func bulkHTTPSign(w *tr.Writer, out string, r *rand.Rand, docs [][]byte, streams
 	for t := 1; t <= n; t++ {
 		trid := 1000000 + t
 		cnt := 2 + r.Intn(10)
+		if t%6 == 1 {
+			// a long stream: the first answers are on their way while most of the requests are still to be read
+			cnt = 100 + r.Intn(60)
+		}
 		want := map[string]string{}
 		var ids []string
 		var body bytes.Buffer
